@@ -436,7 +436,8 @@ class FakeSocket:
         elif key.expireat is None:
             return -1
         else:
-            return int(round((key.expireat - self._db.time) * scale))
+            # Redis rounds half up: (ttl_ms + 500) / 1000
+            return int(math.floor((key.expireat - self._db.time) * scale + 0.5))
 
     @command((Key(), Int))
     def expire(self, key, seconds):
